@@ -29,3 +29,5 @@ def run(prog, rep):
     from ..rules import r_flow as _rfa
     _rfa.run_aligned(prog, rep)
     _rio2.run_set_extent(prog, rep)
+    from ..rules import r_pair as _rp17
+    _rp17.run_match_tables(prog, rep)
